@@ -264,10 +264,13 @@ def congruence(ctx: Any) -> List[Ob]:
                     mask_ok = True
         if self_attr(t, me) == 'unique' and isinstance(st, ast.Assign):
             v = st.value
-            if isinstance(v, ast.Compare) and len(v.ops) == 1 and isinstance(v.ops[0], ast.NotEq) and isinstance(v.left, ast.BinOp) and isinstance(v.left.op, ast.BitAnd):
-                okf, z = prog.try_fold(sc.module, v.comparators[0])
-                bits = [prog.try_fold(sc.module, s) for s in (v.left.left, v.left.right)]
-                uniq_ok = okf and z == 0 and any(b[0] and b[1] == 0x8000 for b in bits)
+            if isinstance(v, ast.Compare) and len(v.ops) == 1 and isinstance(v.ops[0], ast.NotEq):
+                sides = [v.left, v.comparators[0]]
+                band = [x for x in sides if isinstance(x, ast.BinOp) and isinstance(x.op, ast.BitAnd)]
+                zero = [x for x in sides if prog.try_fold(sc.module, x) == (True, 0)]
+                if len(band) == 1 and len(zero) == 1:
+                    bits = [prog.try_fold(sc.module, s) for s in (band[0].left, band[0].right)]
+                    uniq_ok = any(b[0] and b[1] == 0x8000 for b in bits)
     obs.append(ob(R, sc, 'self.class_ = class_ & _CLASS_MASK', 'class is stored with the top (flush/QU) bit masked off (0x7FFF), so the bit cannot leak into identity', mask_ok))
     obs.append(ob(R, sc, 'self.unique = class_ & _CLASS_UNIQUE != 0', 'the flush/QU flag is exactly the top bit (0x8000) of the wire class', uniq_ok))
     # immutability of hashed fields: written only in the construction chain
